@@ -182,7 +182,9 @@ func c07ReadFaultsLarge(c *Ctx) {
 				for len(x) < target {
 					x = append(x, wellFormed(r, ff, 1+r.IntN(8))...)
 				}
-				if ff == "bed" { // one N per file
+				if k.Idx%2 == 1 {
+					x = wellFormedLong(r, ff)
+				} else if ff == "bed" { // one N per file
 					x = nil
 					var buf bytes.Buffer
 					for buf.Len() < target {
